@@ -213,6 +213,9 @@ def exec_op(mn, imms, st):
 
     try:
         if mn == "//":
+            # TealOp.assemble writes the text after `// ` verbatim: a line break in it starts a new TEAL line (instructions)
+            if any(isinstance(a, str) and ("\n" in a or "\r" in a) for a in imms):
+                return [Leaf(s.guards, "comment-text-with-line-break-becomes-code", s.W, list(s.stack))]
             return [s]
         if mn == "pop":
             pop()
